@@ -161,7 +161,11 @@ func genReplay(c *lib.Ctx, dir string) error {
 		cfgs = append(cfgs, mcBounds{[]int{32, 64, 1056, 1088, 2080}, 4, 3, "{1}", "{2}", false})
 	}
 	c.Set("G_configs", cfgs)
-	pre := prefill(2100)
+	pre, bad := prefill(2100)
+	if bad != "" {
+		c.Reject("vector:panic:build:Conj", bad, map[string]any{"mode": "B", "n": 2100})
+		return nil
+	}
 	var mu sync.Mutex
 	var firstErr error
 	total := 0
@@ -355,7 +359,12 @@ func replay(c *lib.Ctx, dir string) error {
 		if err := json.Unmarshal(f.Case, &g); err != nil {
 			return lib.Infra("%v", err)
 		}
-		vs := []vector.Vector{prefill(g.Base)[g.Base]}
+		pre, bad := prefill(g.Base)
+		if bad != "" {
+			c.Reject("vector:panic:build:Conj", bad, map[string]any{"mode": "B", "n": g.Base})
+			return nil
+		}
+		vs := []vector.Vector{pre[g.Base]}
 		for k := 0; k < len(g.P)-1; k++ {
 			o, isNew, err := parseStep(g.P[k])
 			if err != nil {
@@ -382,6 +391,19 @@ func replay(c *lib.Ctx, dir string) error {
 		}
 		nc := record(recv, v.Recipe, v.Kind, v.O)
 		return judgeCases(c, dir, "JudgePVector(replay)", []vcase{nc})
+	case "B":
+		var w struct {
+			N int `json:"n"`
+		}
+		json.Unmarshal(f.Case, &w)
+		pre, bad := prefill(w.N)
+		if bad == "" {
+			_, bad = popDown(pre[w.N])
+		}
+		if bad != "" {
+			c.Reject("vector:panic:build", bad, w)
+		}
+		return nil
 	case "H":
 		var w struct {
 			Events []hevent `json:"events"`
